@@ -177,8 +177,10 @@ class TopLevelVisitor(ast.NodeVisitor):
         # splits at form feeds and unicode separators, which would shift
         # every line number after one of them)
         self.sourcelines = re.split('\r\n|\r|\n', self.source)
-        source_utf8  = self.source.encode('utf8')
-        pt = ast.parse(source_utf8)
+        # The text is parsed as it is: handing it over as utf-8 bytes would
+        # let an encoding cookie in the text decode those bytes once more.
+        # (a byte order mark that survived decoding is not part of the code)
+        pt = ast.parse(self.source.lstrip('\ufeff'))
         return pt
 
     def process_finished(self, node):
